@@ -265,7 +265,7 @@ def binary_session(app, cid, steps, selfplay=None, quit_during_search=False, wat
         last_msg = time.time()
         while True:
             now = time.time()
-            if not stop_sent and (now - t0 >= stop_after / 1000.0 or logged >= 3000):
+            if not stop_sent and (now - t0 >= stop_after / 1000.0 or logged >= 400):
                 ev.append({"c": cid, "ev": "in", "cmd": "stop"})
                 pr.send("stop")
                 stop_sent = True
@@ -274,7 +274,7 @@ def binary_session(app, cid, steps, selfplay=None, quit_during_search=False, wat
                 if line == "<timeout>":
                     continue
             else:
-                if logged >= 3000 and not stop_sent:
+                if logged >= 400 and not stop_sent:
                     pass
                 line = pr.get(max(watchdog - (now - last_msg), 0.001))
                 if line == "<timeout>":
@@ -293,10 +293,10 @@ def binary_session(app, cid, steps, selfplay=None, quit_during_search=False, wat
                     ev.append({"c": cid, "ev": "truncated", "skipped": skipped})
                 ev.append({"c": cid, "ev": "out", "raw": line})
                 return line.split()
-            if logged < 3000:
+            if logged < 400:
                 logged += 1
                 ev.append({"c": cid, "ev": "out", "raw": line})
-                if logged >= 3000 and not stop_sent:
+                if logged >= 400 and not stop_sent:
                     ev.append({"c": cid, "ev": "in", "cmd": "stop"})
                     pr.send("stop")
                     stop_sent = True
